@@ -35,7 +35,7 @@ fn view_wf(v: u128, data: &[u8], nbuffers: usize) -> bool {
 // and out-of-line views with lengths 13 and 14 occur) and an optional validity bitmap of symbolic length
 // <= 3:  Ok <=> both views are well-formed (view_wf) /\ (no bitmap \/ bitmap length == 2). On Ok,
 // value(i) is exactly the bytes the view denotes (inline bytes, or data[offset..offset+len]).
-// @unit name=binary_view_try_new_iff props=C09,C01 kind=bounded bound=views=2_data_buffers=1_of_14_bytes_validity<=3_bits fns=GenericByteViewArray::try_new,GenericByteViewArray::value timeout=900 mem=6
+// @unit name=binary_view_try_new_iff props=C09,C01 kind=bounded bound=views=2_data_buffers=1_of_14_bytes_validity<=3_bits fns=GenericByteViewArray::try_new,GenericByteViewArray::value timeout=900 mem=6 tier=thorough
 #[kani::proof]
 #[kani::unwind(18)]
 #[kani::stub(alloc::fmt::format, stub_format)]
